@@ -134,7 +134,7 @@ Fixpoint qok (n : node) : bool :=
   | NCat l => forallb qok l
   | NAlt a b => qok a && qok b
   | NCaptureGroup _ c _ => qok c
-  | NLookaround _ _ _ _ c => qok c
+  | NLookaround _ _ sg eg c => qok c && (eg - sg =? ng c)%nat
   | NLoop b mn mx _ egs ege => qok b && (mn <=? max_val mx) && (ege - egs =? ng b)%nat
   | NLoop1CharBody b mn mx _ => qok b && (mn <=? max_val mx) && l1_body_ok b
   | NCharSet cs => (length cs <=? 4)%nat
